@@ -352,23 +352,96 @@ def _comparators(ctx, prog, sorter):
                 ok = Bn == An and mir.contains(A, lambda x: x[0] == 'param' and x[1] == 2) and not mir.contains(A, lambda x: x[0] == 'param' and x[1] == 3)
         ctx.check(ok, 'R04.4', key, cb.where(0), cb.path,
                   'the comparator must be cost(a).partial_cmp(cost(b)) with the same cost formula on both sides (ascending order)', found=found, detail=found or '')
+        # plain comparator (no weights): the cost is the distance to `previous`
+        if rv and ok and not mir.contains(rv[0], lambda x: x[0] == 'bin' and x[1] == 'Mul'):
+            A0 = strip(strip(rv[0][2])[2])
+            okp, whyp = _cost_term(cb, sorter, dist, A0, None, 'prev')
+            ctx.check(okp, 'R04.4', key + '/reference', cb.where(0), cb.path,
+                      'without a sorting weight the solutions must be ordered by their distance to `previous`: ' + whyp, found=show(A0, maxdepth=5), detail='distance(x, previous)')
         # weights
         if mir.contains(rv[0], lambda x: x[0] == 'bin' and x[1] == 'Mul') if rv else False:
             A = strip(strip(rv[0][2])[2])
             ring = algebra.Ring()
             P = ring.nf(algebra.canon(A))
             # expect  prev*(1-w) + constr*w  : coefficient structure
-            atoms = P.atoms()
-            w_atoms = [a for a in atoms if 'sorting_weight' in show(a, maxdepth=6)]
+            # monomials: prev (coef 1), prev*w (coef -1), centre*w (coef 1); the atoms are identified by this structure
             okw = False
-            if len(w_atoms) == 1:
-                wa = w_atoms[0]
-                # monomials: prev (coef 1), prev*w (coef -1), constr*w (coef 1)
-                mons = {tuple(sorted((show(a, maxdepth=3), p) for a, p in k)): v for k, v in P.m.items()}
-                coefs = sorted(float(v) for v in P.m.values())
-                okw = coefs == [-1.0, 1.0, 1.0] and sum(1 for k in P.m if any(a == wa for a, p in k)) == 2
+            why = ''
+            mons = list(P.m.items())
+            deg1 = [(k, v) for k, v in mons if sum(p for a, p in k) == 1]
+            deg2 = [(k, v) for k, v in mons if sum(p for a, p in k) == 2 and len(k) == 2]
+            if len(mons) == 3 and len(deg1) == 1 and len(deg2) == 2 and float(deg1[0][1]) == 1.0 and sorted(float(v) for k, v in deg2) == [-1.0, 1.0]:
+                prev_atom = deg1[0][0][0][0]
+                neg = [k for k, v in deg2 if float(v) == -1.0][0]
+                pos = [k for k, v in deg2 if float(v) == 1.0][0]
+                neg_atoms, pos_atoms = {a for a, p in neg}, {a for a, p in pos}
+                common = neg_atoms & pos_atoms
+                if len(common) == 1 and prev_atom in neg_atoms:
+                    w_atom = next(iter(common))
+                    centre_atom = next(iter(pos_atoms - common))
+                    okp, whyp = _cost_term(cb, sorter, dist, prev_atom, w_atom, 'prev')
+                    okc, whyc = _cost_term(cb, sorter, dist, centre_atom, w_atom, 'centre')
+                    okw = okp and okc
+                    why = '; '.join(x for x in (whyp, whyc) if x)
+                else:
+                    why = 'no single weight atom shared by the two products'
+            else:
+                why = 'not of the form p + (-1)*p*w + c*w'
             ctx.check(okw, 'R04.4', key + '/weights', cb.where(0), cb.path,
-                      'the weighted cost must be prev_distance*(1 - w) + centre_distance*w', found=P.show(lambda a: show(a, maxdepth=3)), detail=P.show(lambda a: show(a, maxdepth=2)))
+                      'the weighted cost must be prev_distance*(1 - w) + centre_distance*w, with prev_distance = distance(x, previous) and centre_distance = '
+                      'distance(x, constraint centres) (a distance may be replaced by 0 only where its weight is 0): ' + why,
+                      found=P.show(lambda a: show(a, maxdepth=3)), detail=P.show(lambda a: show(a, maxdepth=2)))
+
+
+def _deep(t, pred):
+    """pred holds for some tuple nested anywhere in t (also inside canonical polynomial structures)"""
+    if isinstance(t, tuple):
+        if t and isinstance(t[0], str) and pred(t):
+            return True
+        return any(_deep(x, pred) for x in t)
+    return False
+
+
+def _cost_term(cb, sorter, dist, atom, w_atom, which):
+    """The atom of the cost polynomial is distance(x, REF) - REF = the sorter's `previous` argument or the constraint centres -
+    on every path, except that it may be the constant 0 on a path where its weight ((1 - w) resp. w) is known to be 0."""
+    atom = strip(atom)
+    alts = []
+    if isinstance(atom, tuple) and atom[0] == 'var' and atom[1] == cb.path:
+        for d in [d for d in cb.defs().get(atom[2], []) if d[4]]:
+            alts.append((strip(cb._def_term(d)), [(strip(g), opw.truth(k)) for g, k, sw in cb.guard_terms(d[1])]))
+    else:
+        alts.append((atom, []))
+    if not alts:
+        return False, '%s distance has no definition' % which
+    zero_when = 1.0 if which == 'prev' else 0.0
+    prev_name = sorter.name_of(3)
+    for t, gs in alts:
+        if isinstance(t, tuple) and t[0] == 'call' and t[1] == dist.path:
+            x, ref = t[2], t[3]
+            has_x = _deep(x, lambda y: y[0] == 'param' and y[1] in (2, 3))
+            if not has_x:
+                return False, '%s distance is not taken from the compared solution' % which
+            if which == 'prev':
+                good = _deep(ref, lambda y: y[0] == 'fld' and len(y) == 3 and util.is_param(strip(y[1]), 1) and str(y[2]).lstrip('*&') == prev_name)
+            else:
+                good = _deep(ref, lambda y: y[0] == 'fld' and len(y) == 3 and y[2] == 'centers')
+            if not good:
+                return False, '%s distance is measured against %s' % (which, show(ref, maxdepth=4))
+            continue
+        if util.const_val(t) == 0.0:
+            implied = False
+            for g, v in gs:
+                if isinstance(g, tuple) and g[0] == 'bin' and g[1] in ('Eq', 'Ne') and v in (True, False):
+                    a, b = algebra.canon(strip(g[2])), strip(g[3])
+                    equal = (g[1] == 'Eq') == v
+                    if equal and a == algebra.canon(w_atom) and util._fnum(b) == zero_when:
+                        implied = True
+            if not implied:
+                return False, '%s distance is replaced by 0 on a path where its weight is not known to be 0' % which
+            continue
+        return False, '%s distance is %s' % (which, show(t, maxdepth=4))
+    return True, ''
 
 
 def _expand_vars(cb, t, depth=0):
